@@ -19,8 +19,20 @@ for ((i=OFFSET; i<N; i+=STRIDE)); do
   if echo "$out" | grep -q "^test result: ok"; then suite=pass
   elif ! echo "$out" | grep -q "^test result"; then suite=no-compile
   else
-    failed=$(echo "$out" | grep -E "^test [^ ]+ \.\.\. FAILED" | grep -v "beacon::encode_decode_cmd" | wc -l)
-    if [ "$failed" = "0" ] && (cd $WT && cargo test --offline encode_decode_cmd 2>&1 | grep -q "^test result: ok"); then suite=pass; else suite=killed; fi
+    # load-sensitive tests (100 ms sleeps, throughput measurements) are re-run alone before they count
+    failed=$(echo "$out" | grep -E "^test [^ ]+ \.\.\. FAILED" | grep -v -E "beacon::encode_decode_cmd|test_speed_" | wc -l)
+    suite=killed
+    if [ "$failed" = "0" ]; then
+      suite=pass
+      for t in $(echo "$out" | grep -E "^test [^ ]+ \.\.\. FAILED" | awk '{print $2}'); do
+        ok=0
+        for try in 1 2 3 4; do
+          if (cd $WT && cargo test --offline "$t" 2>&1 | grep -q "^test result: ok. 1 passed"); then ok=1; break; fi
+          sleep 3
+        done
+        [ $ok = 1 ] || suite=killed
+      done
+    fi
   fi
   checks="{}"
   if [ $suite = pass ]; then
